@@ -17,6 +17,8 @@ def check(ctx):
     nr = _tzr.check_component_rebuild(ctx, rep)
     rep.floor("timestamps rebuilt from components", nr, 1)
     nu = _tzr.check_utc_shortcut(ctx, rep)
+    _tzr.check_offset_fields(ctx, rep)
+    nic = _hc.check_int_casts(ctx, rep)
     rep.floor("lookup-free UTC results in the Zinc reader", nu, 1)
     nmg = _hc.check_member_guards(ctx, rep)
     rep.floor("Hayson member / element write sites", nmg, 38)
